@@ -142,8 +142,8 @@ def check_program(ctx, src, p, config, keep_names, workdir, cli):
 def check_cli(ctx, src, p, config, keep_file, workdir, case):
     from pico8 import tool
     regions, _ = carts.random_regions(ctx.rng, 'sparse')
-    p1 = os.path.join(workdir, 'm.p8')
-    pf = os.path.join(workdir, 'm_fmt.p8')
+    p1 = os.path.join(workdir, ambient.BASE[0] + '.p8')
+    pf = os.path.join(workdir, ambient.BASE[0] + '_fmt.p8')
     for f in (p1, pf):
         if os.path.exists(f):
             os.remove(f)
